@@ -165,6 +165,12 @@ def memento_case(spec):
     except Exception as e:
         out["violations"].append(("construct|%s" % type(e).__name__, "cannot build the reference: %r" % (e,), art))
         return out
+    # the caller goes on using (and changing) the lists / dicts it passed: what is recorded is a snapshot
+    for nme in list(argnames) + [v for _, v in kwnames] + [v for _, v in ctxnames]:
+        if isinstance(allv[nme], list):
+            allv[nme].append("changed-by-the-caller-afterwards")
+        elif isinstance(allv[nme], dict):
+            allv[nme]["changed-by-the-caller-afterwards"] = 1
     invs = [fx.g.fn_reference().with_args(i % 2, q=allv["dt-utc"]) for i in range(ninv)]  # ninv == 3: the third repeats the first
     if ninv == 2:
         invs[1] = fx.g.partial(fx.f1).fn_reference().with_args(q=[allv["date"], {"z": allv["nan"]}] if spec[1] and "nan" in spec[1] else [allv["date"]])
